@@ -104,6 +104,7 @@ def run(chk):
     # ---------------------------------------------------------------- C12.d AVX-512 masking is applied on every exit of a category
     rwexits.run(chk)
     rwexits.run_bitmask(chk)
+    rwexits.run_gather_mask(chk)
 
     return chk.finish(
         level="other",
